@@ -44,8 +44,9 @@ type acctKey struct {
 }
 
 type fakeStore struct {
-	mu   sync.Mutex
-	docs map[acctKey]map[string]interface{}
+	mu       sync.Mutex
+	docs     map[acctKey]map[string]interface{}
+	putDelay time.Duration // a slow database write (set by `chf slowdb`)
 }
 
 var store = &fakeStore{docs: map[acctKey]map[string]interface{}{}}
@@ -87,6 +88,12 @@ func (s *fakeStore) getOne(coll string, filter bson.M) (map[string]interface{}, 
 
 func (s *fakeStore) putOne(coll string, filter bson.M, put map[string]interface{}) (bool, error) {
 	s.mu.Lock()
+	slow := s.putDelay
+	s.mu.Unlock()
+	if slow > 0 {
+		time.Sleep(slow)
+	}
+	s.mu.Lock()
 	defer s.mu.Unlock()
 	k, ok := keyOf(filter)
 	if !ok {
@@ -112,6 +119,7 @@ func (s *fakeStore) set(ue string, rg int64, quota, unitCost string) {
 func (s *fakeStore) reset() {
 	s.mu.Lock()
 	defer s.mu.Unlock()
+	s.putDelay = 0
 	s.docs = map[acctKey]map[string]interface{}{}
 }
 
